@@ -63,7 +63,8 @@ class Module:
         self.path = path
         self.relpath = relpath
         self.src = src
-        self.tree = ast.parse(src, filename=path)
+        from .normalise import canonicalise
+        self.tree = canonicalise(ast.parse(src, filename=path))
         self.is_pkg = os.path.basename(path) == '__init__.py'
         self.symbols: Dict[str, Symbol] = {}
 
